@@ -38,7 +38,6 @@ func ClientGet(c *http.Client, url string) (*http.Response, error) {
 	return &http.Response{StatusCode: int(U64("http.status")), Status: Str("http.statusText"), Body: &StrReader{S: Str("http.respBody")}}, nil
 }
 
-
 // ---------- URLs ----------
 
 var urlRaw = map[*url.URL]string{}
@@ -75,6 +74,29 @@ func URLRelParse(u *url.URL, ref string) (*url.URL, error) {
 	return URLOf(UFStr("urlJoin", urlRaw[u], ref)), nil
 }
 
+// Query: the value of each query parameter is an (uninterpreted) function of the URL text and
+// the parameter name; the model materialises the parameters the repository asks for.
+//
+//wsym:replace (*net/url.URL).Query
+func URLQuery(u *url.URL) url.Values {
+	v := url.Values{}
+	for _, k := range []string{"treeID"} {
+		if UFBool("urlHasParam", urlRaw[u], k) {
+			v[k] = []string{UFStr("urlParam", urlRaw[u], k)}
+		}
+	}
+	return v
+}
+
+//wsym:replace (net/url.Values).Get
+func URLValuesGet(v url.Values, key string) string {
+	vs := v[key]
+	if len(vs) == 0 {
+		return ""
+	}
+	return vs[0]
+}
+
 //wsym:replace net/url.PathEscape
 func PathEscape(s string) string { return UFStr("pathEscape", s) }
 
@@ -93,7 +115,7 @@ func NewRequest(method, u string, body io.Reader) (*http.Request, error) {
 		Log(Ev{K: "urlfail"})
 		return nil, errTransport
 	}
-	r := &http.Request{Method: method}
+	r := &http.Request{Method: method, Header: http.Header{}}
 	ri := &reqInfo{url: u}
 	ri.body = body
 	reqs[r] = ri
